@@ -20,6 +20,7 @@ type loadCase struct {
 	format  string
 	text    string
 	envFile string // content of env_file "envf" next to the config ("" = none)
+	part    string // content of "part.yaml" next to the config ("" = none)
 	tasks   []string
 	pipes   []string
 }
@@ -31,6 +32,9 @@ func loadCaseRun(col *Collector, lc loadCase, tag string) {
 	os.WriteFile(cfgPath, []byte(lc.text), 0644)
 	if lc.envFile != "" {
 		os.WriteFile(filepath.Join(dir, "envf"), []byte(lc.envFile), 0644)
+	}
+	if lc.part != "" {
+		os.WriteFile(filepath.Join(dir, "part.yaml"), []byte(lc.part), 0644)
 	}
 	cs := Case{Tags: []string{tag, "format=" + lc.format}, NonTrivial: true}
 	cs.Replay = fmt.Sprintf("load %s [%s]: %s", lc.format, lc.desc, clipStr(strings.ReplaceAll(lc.text, "\n", "\\n"), 700))
@@ -203,6 +207,35 @@ func runC15(col *Collector, tier string, seed int64) {
 	}
 	for _, h := range []string{"", "x = 1", "[tasks]", "[tasks.t]", "[[pipelines.p]]", "import = \"x\"", "import = [1]", "[tasks.t]\ncommand = 5", "[contexts.c]", "[watchers.w]"} {
 		add(loadCase{desc: "hand-written", format: "toml", text: h, tasks: []string{"t"}, pipes: []string{"p"}}, "degenerate")
+	}
+	// very short files: every sequence of 1..3 bytes over an alphabet of structural, BOM and invalid bytes
+	// (a truncated byte-order mark, a lone bracket, NUL ...), as the main file in each format
+	alpha := []byte{0xEF, 0xBB, 0xBF, 0xFE, 0xFF, 0x00, '{', '[', '-', ':', '#', '"', ' ', '\n', 'a', '=', '!', '&', '*', '%', '|', '>', '?', '\t'}
+	var shorts []string
+	for _, a := range alpha {
+		shorts = append(shorts, string([]byte{a}))
+		for _, b := range alpha {
+			if tier == "thorough" || a >= 0x80 || b >= 0x80 || rng.Intn(12) == 0 {
+				shorts = append(shorts, string([]byte{a, b}))
+			}
+			if a == 0xEF && b == 0xBB {
+				for _, c := range alpha {
+					shorts = append(shorts, string([]byte{a, b, c}))
+				}
+			}
+		}
+	}
+	for i, h := range shorts {
+		add(loadCase{desc: "very short file", format: []string{"yaml", "json", "toml"}[i%3], text: h}, "short-file")
+		if h[0] >= 0x80 {
+			add(loadCase{desc: "very short file", format: "yaml", text: h}, "short-file")
+		}
+	}
+	// the same short byte sequences as the content of an imported file
+	for i, h := range shorts {
+		if h[0] >= 0x80 && i%2 == 0 {
+			add(loadCase{desc: "very short imported file", format: "yaml", text: "import: [\"part.yaml\"]\ntasks:\n  t: {command: [\"true\"]}\n", part: h, tasks: []string{"t"}}, "short-file")
+		}
 	}
 	// env_file contents
 	envs := []string{"A=b\n", "\n", "A=b\n\nC=d\n", "NOEQUALS\n", "=x\n", "A=b=c\n", "A=\n", "  \n", "# comment\nA=b\n", "A=b\r\nC=d\r\n", "A=üñí\n", "A=b", strings.Repeat("X", 70000) + "=1\n", "A=" + strings.Repeat("y", 70000) + "\n", "\x00=\x00\n", "A=b\n=\n=\n"}
